@@ -50,6 +50,40 @@ fn k_fixed_buff(depth: u8, m: usize) {
   assert!(sr == expected, "C15: builder output does not cover exactly the pushed cells with the requested flag");
 }
 
+/// One whole `drain_buffer` step from the initial state (no previous BMOC): sort model + the real `Vec::dedup` + `buff_to_bmoc` on
+/// ANY buffer `push` can leave behind -- m cells in any order, duplicates allowed except two equal consecutive ones (`push` skips
+/// those), `sorted` = what `push` computed (false as soon as one cell is smaller than its predecessor). Smaller than the end-to-end
+/// harness (no `push`, no `or`): reaches 3 pushes, the shortest history with a late duplicate after a descent (a, b < a, a).
+fn k_fixed_drain(depth: u8, m: usize) {
+  let is_full: bool = kani::any();
+  let p0: u64 = kani::any();
+  let p1: u64 = kani::any();
+  let p2: u64 = kani::any();
+  let p3: u64 = kani::any();
+  let c: u64 = kani::any();
+  let nh = spec_n_hash(depth);
+  kani::assume(c < nh && (m < 1 || p0 < nh) && (m < 2 || (p1 < nh && p1 != p0)) && (m < 3 || (p2 < nh && p2 != p1)) && (m < 4 || (p3 < nh && p3 != p2)));
+  kani::cover!(m >= 3 && p1 < p0 && p2 == p0, "late duplicate after a descent");
+  let ps = [p0, p1, p2, p3];
+  let mut buffer: Vec<u64> = Vec::with_capacity(4);
+  let mut sorted = true;
+  let mut t = 0usize;
+  while t < m { if t > 0 && ps[t] < ps[t - 1] { sorted = false; } buffer.push(ps[t]); t += 1; }
+  let mut b = BMOCBuilderFixedDepth { depth, bmoc: None, is_full, buffer, sorted };
+  b.drain_buffer();
+  let res = b.bmoc.take();
+  assert!(res.is_some(), "C15: builder returns nothing although cells were pushed");
+  let bm = res.unwrap();
+  assert!(bm.get_depth_max() == depth, "C15: builder output has the wrong depth_max");
+  let (bad, sr, _) = spec_scan(depth, &bm.entries, c);
+  assert!(bad.is_none(), "C15/C09: builder output is not well formed");
+  let mut pushed = false;
+  t = 0;
+  while t < m { if ps[t] == c { pushed = true; } t += 1; }
+  let expected = if pushed { if is_full { FULL } else { PARTIAL } } else { ABSENT };
+  assert!(sr == expected, "C15: builder output does not cover exactly the pushed cells with the requested flag");
+}
+
 /// Model of `slice::sort_unstable` (environment: std) for the fixed-depth builder harnesses: an insertion sort on at most 4
 /// elements, the bound being asserted. The std implementation (pattern-defeating quicksort + recursion) is out of reach of the
 /// symbolic execution even for 2 elements (symbolic length).
